@@ -178,16 +178,27 @@ RETURNED with `true`, in order, followed by the value held by its call in flight
 is past its linearization point (`popRead`/`popClear`/`popAdd`) — and by nothing otherwise.
 So a `PopWait` (or `Pop`) that returns false has consumed no value: by `c11_lin_fifo` every
 value that leaves the list does so at a pop linearization event, and each of those is
-delivered to a caller as `(x, true)`. -/
+delivered to a caller as `(x, true)`.
+ORDER (last clause): `segs j [] trace` lists thread `j`'s completed calls, each with ALL the
+linearization events (pushes and pops) the thread emitted between its previous return and
+this return.  A call that returned `(_, false)` — in particular a timed `PopWait` that
+expired — emitted NONE: it performed no successful head CAS and no tail publication, so it
+leaves the abstract queue (the `replay` of the lin sequence, `c11_lin_fifo`) exactly as it
+is, content AND order; a call returning `(x, true)` performed exactly the one removal of
+`x`; a `Push(v)` exactly the one append of `v`; `Len` nothing.  (In the model `PopWait` has no
+other access to the list than its `Pop`s; the go/ast skeleton obligation in
+`c11_source_order` records every method `PopWait` calls on the list.) -/
 theorem c11_popwait_timed (vals : List Int) (progs : List (List Call)) (σ : List Nat) (j : Nat)
     (pr : List Call) (hj : progs[j]? = some pr) :
     ∃ held th', (run .addThenStore (init vals progs) σ).1.threads[j]? = some th' ∧
       (trace (init vals progs) σ).filterMap (TEv.linPop? j) =
         (trace (init vals progs) σ).filterMap (TEv.retTrue? j) ++ held ∧
-      held.length ≤ 1 ∧ (isPopPost th'.pc = false → held = []) := by
+      held.length ≤ 1 ∧ (isPopPost th'.pc = false → held = []) ∧
+      ∀ sg ∈ segs j [] (trace (init vals progs) σ), SegOk j sg := by
   obtain ⟨st', th', h1, h2, _, h4⟩ := accepts_trace vals progs σ j pr hj
   have hc := accepts_conservation h2
-  refine ⟨st'.2.vals, th', h1, by simpa [Phase.vals] using hc, ?_, fun h => by rw [h4 h]; rfl⟩
+  have hs := segs_ok h2
+  refine ⟨st'.2.vals, th', h1, by simpa [Phase.vals] using hc, ?_, fun h => by rw [h4 h]; rfl, hs⟩
   cases st'.2 <;> simp [Phase.vals]
 
 /-- `c11_push_completes_solo`: in every reachable state in which all other threads are
@@ -297,6 +308,16 @@ example :
       [.ret 0 (.pop 0 false)] ∧
     stored (run .addThenStore (init [] [[.popWaitT 2], [.push 7]])
         [0, 0, 0, 0, 0, 0, 0, 1, 1, 1, 1, 0, 1]).1 = [7] := by
+  decide
+
+/-- Non-vacuity of the `segs` clause: thread 0 = [timed PopWait that expires, Pop], thread 1
+pushes 7 and 8 during the last poll interval; the expired call has no lin event, the `Pop`
+that follows takes the FRONT element 7, and 8 stays. -/
+example :
+    let σ := [0, 0, 0, 1, 1, 1, 1, 0, 0, 1, 1, 1, 1, 1, 1, 0, 0, 0, 0, 0, 0, 0]
+    segs 0 [] (trace (init [] [[.popWaitT 1, .pop], [.push 7, .push 8]]) σ) =
+      [([], .pop 0 false), ([.pop 0 7], .pop 7 true)] ∧
+    stored (run .addThenStore (init [] [[.popWaitT 1, .pop], [.push 7, .push 8]]) σ).1 = [8] := by
   decide
 
 /-- Non-vacuity of the linearizability clauses: a reachable instrumented state with a
